@@ -26,6 +26,8 @@ type C09Case struct {
 	// order, in every run): a priming didChangeWatchedFiles naming every file as changed (contents
 	// unchanged), then one in which the files of Changed really have new contents on disk
 	Events *C09Events `json:"events,omitempty"`
+	// RefLimit: when > 0 the client sets ReferenceMaxNum to it (workspace/didChangeConfiguration)
+	RefLimit int `json:"refLimit,omitempty"`
 }
 
 type C09Events struct {
@@ -90,6 +92,27 @@ func genC09(t *rapid.T) C09Case {
 		use := fmt.Sprintf("local dm = require(\"%s\")\ndm.hello()\nprint(dm)\n", mod)
 		c.WS.Files = append(c.WS.Files, WSFile{Path: dirs[0] + "/" + mod + ".lua", Text: body}, WSFile{Path: dirs[1] + "/" + mod + ".lua", Text: body},
 			WSFile{Path: "use" + mod + ".lua", Text: use}, WSFile{Path: dirs[0] + "/user0.lua", Text: use}, WSFile{Path: dirs[1] + "/user1.lua", Text: use})
+	}
+	// a function with annotated parameters called with too few arguments from many files: the
+	// "fewer arguments than parameters" warning needs the definition's annotation, which the file
+	// workers look up lazily in a record they share
+	if rapid.IntRange(0, 3).Draw(t, "annotatedCalls") == 0 {
+		c.WS.Files = append(c.WS.Files, WSFile{Path: "annf/def.lua", Text: "---@param a number\n---@param b number\n---@param c number\nfunction AnnF(a, b, c)\n  return a, b, c\nend\n" +
+			"---@param p number\n---@param q? number\nfunction AnnG(p, q)\n  return p, q\nend\n"})
+		n := rapid.IntRange(8, 30).Draw(t, "annCallers")
+		for i := 0; i < n; i++ {
+			c.WS.Files = append(c.WS.Files, WSFile{Path: fmt.Sprintf("annf/call%02d.lua", i), Text: fmt.Sprintf("AnnF(%d)\nAnnG()\nAnnF(1, 2)\nAnnG(%d)\n", i, i)})
+		}
+	}
+	// a global with more references than the configured answer limit (ReferenceMaxNum, set by a
+	// settings change), spread over several files
+	if rapid.IntRange(0, 3).Draw(t, "manyRefs") == 0 {
+		c.RefLimit = rapid.IntRange(5, 40).Draw(t, "refLimit")
+		c.WS.Files = append(c.WS.Files, WSFile{Path: "refs/def.lua", Text: "RefG = 1\n"})
+		n := rapid.IntRange(4, 10).Draw(t, "refFiles")
+		for i := 0; i < n; i++ {
+			c.WS.Files = append(c.WS.Files, WSFile{Path: fmt.Sprintf("refs/use%02d.lua", i), Text: strings.Repeat("print(RefG)\n", rapid.IntRange(3, 12).Draw(t, "refPerFile"))})
+		}
 	}
 	// many symbols: more matches of one workspace/symbol query than the answer's limit (200), spread
 	// over several files, so that the cut depends on how the workers' partial results are merged
@@ -343,7 +366,7 @@ func checkC09(c C09Case, env *Env) *Violation {
 	}
 	for fi, f := range c.WS.Files {
 		res, b := reflua.Analyze(f.Text)
-		if res.Verdict != reflua.Valid || b == nil || strings.HasPrefix(f.Path, "fill/") && fi%7 != 0 || strings.HasPrefix(f.Path, "syms/") {
+		if res.Verdict != reflua.Valid || b == nil || strings.HasPrefix(f.Path, "fill/") && fi%7 != 0 || strings.HasPrefix(f.Path, "syms/") || strings.HasPrefix(f.Path, "annf/call") || strings.HasPrefix(f.Path, "refs/use") {
 			continue
 		}
 		n := 0
@@ -408,6 +431,14 @@ func checkC09(c C09Case, env *Env) *Violation {
 				f := c.WS.Files[k]
 				req.Files = append(req.Files, proto.File{Path: f.Path, Data: []byte(f.Text)})
 			}
+		}
+		if c.RefLimit > 0 {
+			// real clients send the settings twice at start-up; the server ignores the first
+			warn := harness.AllOn()
+			delete(warn, "client")
+			set := harness.J(harness.M{"settings": harness.M{"luahelper": harness.M{"base": harness.M{"ReferenceMaxNum": c.RefLimit, "ReferenceIncudeDefine": true}, "Warn": warn}}})
+			req.Steps = append(req.Steps, proto.Step{Op: "notify", Method: "workspace/didChangeConfiguration", Params: set},
+				proto.Step{Op: "notify", Method: "workspace/didChangeConfiguration", Params: set})
 		}
 		evStep, evQBase := -1, -1
 		if c.Events != nil {
